@@ -179,14 +179,22 @@ class Session:
     def in_flight(self):
         return sum(w.in_flight() for l in self.links for w in l.wires())
 
-    async def quiesce(self, max_rounds=20000):
+    def total_bytes(self):
+        return sum(len(w.delivered) + len(w.pending) for l in self.links for w in l.wires())
+
+    async def quiesce(self, max_rounds=None, byte_cap=64_000_000):
         """Pump wires and yield until nothing moves for 3 rounds.  Returns the
-        number of rounds, or -1 when max_rounds was exceeded (stall)."""
+        number of rounds, or -1 on a stall: more rounds than the traffic can
+        explain (every round with a busy wire moves at least one byte, so the
+        bound grows with the bytes written), or traffic that does not cease
+        (byte cap).  A spin inside a callback never returns here: that is the
+        step budget's / the watchdog's business."""
         quiet = 0
         n = 0
         while quiet < 3:
             n += 1
-            if n > max_rounds:
+            limit = max_rounds if max_rounds is not None else 5000 + 3 * self.total_bytes()
+            if n > limit or self.total_bytes() > byte_cap:
                 self.stalled = True
                 return -1
             moved = self.pump()
